@@ -175,11 +175,17 @@ func (a *ArcPath) SegAt(s float64) int {
 
 // CurveTol is the arc-length tolerance for a position s on the subpath: rel·max(L,1) for the
 // straight part plus, for every curved segment that starts before s, max(1 % of its length,
-// 1e-3) (positions behind a curve inherit the error of the curve's length).
+// 1e-3) - quadratic Beziers: max(1e-4 of the length, 1e-5) - (positions behind a curve inherit
+// the error of the curve's length).
 func (a *ArcPath) CurveTol(s, rel float64) float64 {
 	t := rel * math.Max(a.L, 1)
 	for j, c := range a.SegCurve {
 		if c && a.SegS[j] < s+1e-6 {
+			if a.SegKind[j] == CmdQuad {
+				// the length of a quadratic Bezier has a closed form, which SplitAt inverts (F113): 1e-4
+				t += math.Max(1e-4*(a.SegS[j+1]-a.SegS[j]), 1e-5)
+				continue
+			}
 			t += math.Max(0.01*(a.SegS[j+1]-a.SegS[j]), 1e-3)
 		}
 	}
